@@ -98,6 +98,8 @@ type Hand struct {
 	lastErr  error                       // result of the last operation
 	OnHang   func(v *vlib.Violation)     // C06: called when an engine operation never returns
 	cur      *pf.GameState               // copy of the state after the last operation
+	snap     *pf.GameState               // JSON snapshot taken at the last persistence hop
+	snapAt   int                         // len(Ops) when it was taken
 	policy   string
 	// facts about the hand collected for evidence
 	Facts map[string]bool
@@ -379,6 +381,7 @@ func (h *Hand) Begin() *vlib.Violation {
 		copy(g.GetState().Meta.Deck, h.Cfg.Deck)
 	}
 	h.cur = Clone(g.GetState())
+	h.snap, h.snapAt = JSONClone(g.GetState()), 0
 	for _, m := range h.Mons {
 		if v := m.Begin(h, h.cur); v != nil {
 			return v
@@ -399,11 +402,28 @@ func (h *Hand) rebuild(how string) (v *vlib.Violation) {
 		}
 	}()
 	st := JSONClone(h.G.GetState())
-	if how == "load" {
+	switch how {
+	case "load":
 		h.G.LoadState(st)
-	} else {
+	case "rollback":
+		// the live object is taken back to an earlier snapshot of this hand and the
+		// operations made since are made again (a service that retries after a
+		// failure): same deck, same operations, so the same state must come out
+		if h.snap != nil {
+			h.G.LoadState(JSONClone(h.snap))
+			for _, op := range h.Ops[h.snapAt:] {
+				if op.K == "cut" {
+					continue
+				}
+				op.Res = ""
+				Apply(h.G, op)
+			}
+			h.Facts["rolled-back"] = true
+		}
+	default:
 		h.G = pf.NewPokerFace().NewGameFromState(st)
 	}
+	h.snap, h.snapAt = JSONClone(st), len(h.Ops) // a copy: st may have become the live state
 	h.Facts["restored-from-json"] = true
 	return nil
 }
